@@ -388,17 +388,18 @@ func childMain(specPath string) {
 		var nl netutil.Netlist
 		nl.Add("127.0.0.1/32")
 		var ok bool
-		if err := cl.Call(&ok, "admin_startRPC", "127.0.0.1", env.HTTPPort, nil, hApis, nil); err != nil || !ok {
+		if err := cl.Call(&ok, "admin_startRPC", "127.0.0.1", 0, nil, hApis, nil); err != nil || !ok {
 			out.Error = fmt.Sprintf("admin_startRPC: ok=%v err=%v", ok, err)
 			emit()
 			os.Exit(1)
 		}
-		if err := cl.Call(&ok, "admin_startWS", "127.0.0.1", env.WSPort, "*", nl, wApis); err != nil || !ok {
+		if err := cl.Call(&ok, "admin_startWS", "127.0.0.1", 0, "*", nl, wApis); err != nil || !ok {
 			out.Error = fmt.Sprintf("admin_startWS: ok=%v err=%v", ok, err)
 			emit()
 			os.Exit(1)
 		}
 		cl.Close()
+		env.RefreshEndpoints()
 	}
 
 	var ks *keystore.KeyStore
@@ -736,7 +737,23 @@ func childMain(specPath string) {
 
 // ------------------------------------------------------------------ parent
 
+// runChild runs one scenario in a child process; failures of the infrastructure kind (the child could not
+// start its node, bind, dial, or died without a result) are retried a few times with a fresh directory.
 func runChild(c *vh.Ctx, sc Scenario, idx int) (*ChildOut, error) {
+	var out *ChildOut
+	var err error
+	for attempt := 0; attempt < 4; attempt++ {
+		out, err = runChildOnce(c, sc, idx*10+attempt)
+		if err == nil {
+			return out, nil
+		}
+		fmt.Fprintf(os.Stderr, "c18: scenario %s attempt %d failed: %v\n", sc.Name, attempt+1, err)
+		time.Sleep(time.Duration(200*(attempt+1)) * time.Millisecond)
+	}
+	return nil, err
+}
+
+func runChildOnce(c *vh.Ctx, sc Scenario, idx int) (*ChildOut, error) {
 	dir, err := os.MkdirTemp("", fmt.Sprintf("c18-%d-", idx))
 	if err != nil {
 		return nil, err
